@@ -59,9 +59,15 @@ where
                         last_flush = Instant::now();
                         let _ = sender.send(());
                     }
-                    Err(_) => {
+                    Err(std::sync::mpsc::RecvTimeoutError::Timeout) => {
                         inner.flush();
                         last_flush = Instant::now();
+                    }
+                    Err(std::sync::mpsc::RecvTimeoutError::Disconnected) => {
+                        // Every `WorkerSink` handle is gone: emit what we still hold and stop,
+                        // instead of spinning on a channel that returns `Disconnected` forever.
+                        inner.flush();
+                        break;
                     }
                 }
             }
